@@ -126,9 +126,12 @@ def run(sim, sc):
                     sim.violation('backpressure:rejection-not-immediate', {'request': r.brief()})
                 sim.count('rejected_backpressure')
             else:
-                if r.timeout is None or r.timeout >= 50:
-                    sim.violation('backlog:slot-never-freed-request-rejected-after-waiting', {'request': r.brief()})
-                elif exact and r.t1 - r.t0 < 0.99 * r.timeout - eps:
+                # giving up after waiting is legitimate by itself (a wake-up can be lost to a waiter that is cancelled at the same
+                # moment - CPython 3.12.1 asyncio.Condition); whether slots really come back is judged by 'idle => backlog 0' and
+                # by the post-phase request below
+                if r.via == 'post':
+                    sim.violation('backlog:idle-server-turned-a-request-away', {'request': r.brief()})
+                elif exact and r.timeout is not None and r.t1 - r.t0 < 0.99 * r.timeout - eps:
                     sim.violation('backpressure:gave-up-waiting-before-timeout', {'request': r.brief()})
                 sim.count('rejected_after_wait')
         if r.kind in ('value', 'error', 'timeout', 'full') and not r.bp and r.via == 'call' and r.timeout is not None and exact \
